@@ -145,8 +145,10 @@ theorem runCmd_root_none (sv : Server) (sid : Nat) (hs : sv.sess? sid = none) (c
   | paramSelf => rfl
   | paramMax n => rfl
   | paramRoute keys => rfl
+  | paramRouteF keys fs => rfl
   | unparamMax => rfl
   | unparamRoute => rfl
+  | unparamRouteF => rfl
   | getparams => simp only [runCmd, hs]
   | ins key before vals => simp only [runCmd, insertOrdered, hs]
   | reorder key before => simp only [runCmd, Muscle.Reflector.reorder, hs]
